@@ -453,3 +453,11 @@ func example(c *Codec, seed int) (m Msg) {
 	}()
 	return rapid.Custom(c.Gen).Example(seed)
 }
+
+// Decode runs the plain decoder of c over b (panics are treated as a
+// rejection here; the Hostile property reports them).
+func Decode(c *Codec, b []byte) (Msg, bool) {
+	v := c.New()
+	o := safeUnmarshal(v, b)
+	return v, o.panicked == nil && o.err == nil
+}
